@@ -190,7 +190,9 @@ impl Array {
     }
     fn index_arr_or_insert(&mut self, i: usize) -> &mut Val {
         #[cfg(kepler_5_rrss_verif)]
-        crate::verif_hooks::check_alloc(i);
+        if i != usize::MAX {
+            crate::verif_hooks::check_alloc(i);
+        }
         if i >= self.arr.len() {
             self.arr.resize_with(i + 1, Default::default);
         }
